@@ -314,6 +314,26 @@ def M2M.replace (s : M2M α) (k nk : α) : M2M α :=
 /-- `list(x.iteritems())` for one side's dict -/
 def iteritems (d : Dict α (List α)) : List (α × α) := d.flatMap fun p => p.2.map fun v => (p.1, v)
 
+/-! the readers of `ManyToMany` (none of them changes anything) -/
+
+/-- `m[key]` = `frozenset(self.data[key])`; `none` = KeyError -/
+def M2M.getitem (s : M2M α) (k : α) : Option (List α) := lookup k s.data
+
+/-- `m.get(key)` with the default `frozenset()` -/
+def M2M.get (s : M2M α) (k : α) : List α :=
+  match s.getitem k with
+  | some vs => vs
+  | none => []
+
+/-- `key in m` -/
+def M2M.contains (s : M2M α) (k : α) : Bool := hasKey k s.data
+
+/-- `len(m)` -/
+def M2M.len (s : M2M α) : Nat := s.data.length
+
+/-- `list(m.keys())` = `list(m)` -/
+def M2M.keysList (s : M2M α) : List α := keys s.data
+
 inductive M2MOp (α : Type) where
   | add (k v : α)
   | remove (k v : α)
